@@ -46,7 +46,19 @@ def _models(torch):
 
         def forward(s, x):
             return s.l(s.b(s.b(x)))
-    return {'M0': M0, 'M1': M1, 'S0': S0, 'S1': S1}
+    class S2(nn.Module):          # Linear layers fed with a 3-D (N, T, F) tensor: a 3-branch module + a fixed head
+        def __init__(s):
+            super().__init__()
+            s.b = SuperNetModule([nn.Linear(8, 6), nn.Sequential(nn.Linear(8, 4), nn.ReLU(), nn.Linear(4, 6)), nn.Linear(8, 6, bias=False)])
+            s.f = nn.Linear(6, 3)
+
+        def forward(s, x):
+            return s.f(torch.relu(s.b(x)))
+    return {'M0': M0, 'M1': M1, 'S0': S0, 'S1': S1, 'S2': S2}
+
+
+def _in_shape(mname):
+    return (5, 8) if mname == 'S2' else (3, 8, 8)
 
 
 def _finite_nonneg(v):
@@ -211,6 +223,29 @@ def _onehot_oracle(torch, o, p, gets, xs, alpha_named, hard_ok):
     p(*xs)
 
 
+def _example_oracle(torch, o, rng, make, shape, src, gets_of, xs, prep=None):
+    """the same network wrapped with input_example= of ONE sample and of 2..8 samples (other values) instead of
+    input_shape=: identical coefficients -> every metric identical"""
+    nb = rng.randint(2, 8)
+    o['example_batch'] = nb
+    g = torch.Generator().manual_seed(o['seed'] + 5)
+    for tag, ex in (('input_example[1]', torch.rand((1,) + shape, generator=g)), ('input_example[%d]' % nb, torch.rand((nb,) + shape, generator=g) * 2.0)):
+        w = make(ex)
+        dst = dict(w.named_parameters())
+        with torch.no_grad():
+            for n, q in src.named_parameters():
+                if n.endswith('alpha') and n in dst:
+                    dst[n].copy_(q)
+        if prep:
+            prep(w)
+        w.train()
+        w(*xs)
+        for which, get in gets_of(w).items():
+            c = float(get())
+            if not close(c, Fraction(o['specs'][which]['value']), 2.0 ** -22):
+                o['fails'].append(('cost-depends-on-the-traced-input-example:' + which, {'input_shape': o['specs'][which]['value'], tag: c}))
+
+
 # ----------------------------------------------------------------------------- SuperNet
 def _sn_specs():
     from plinio.cost import params, ops, params_no_bias, ops_no_bias, gap8_latency
@@ -226,12 +261,13 @@ def sn_case(torch, seed, mname, full_cost):
     stage = 'build'
     try:
         specs = _sn_specs()
+        shp = _in_shape(mname)
         names = list(specs)
         single = names[seed % len(names)]
         torch.manual_seed(seed)
         M = _models(torch)[mname]
-        p = SuperNet(M(), input_shape=(3, 8, 8), cost=dict(specs), full_cost=full_cost)
-        ps = SuperNet(M(), input_shape=(3, 8, 8), cost=specs[single], full_cost=full_cost)
+        p = SuperNet(M(), input_shape=shp, cost=dict(specs), full_cost=full_cost)
+        ps = SuperNet(M(), input_shape=shp, cost=specs[single], full_cost=full_cost)
         combs = [(n, mod) for n, mod in p.named_modules() if isinstance(mod, SuperNetCombiner)]
         alphas = {}
         for (n, mod), (n2, mod2) in zip(combs, [(n, mod) for n, mod in ps.named_modules() if isinstance(mod, SuperNetCombiner)]):
@@ -243,7 +279,7 @@ def sn_case(torch, seed, mname, full_cost):
         p.update_softmax_options(temperature=temp); ps.update_softmax_options(temperature=temp)
         o['alpha'] = alphas
         o['temperature'] = temp
-        xs = [torch.randn(2, 3, 8, 8)]
+        xs = [torch.randn((2,) + shp)]
         p.train(); ps.train()
         p(*xs); ps(*xs)
         all_nas = [(n, q) for n, q in p.named_nas_parameters() if q.requires_grad]
@@ -297,6 +333,9 @@ def sn_case(torch, seed, mname, full_cost):
                     o['fails'].append(('cost-depends-on-evaluation-order:' + which, {'first_read': o['specs'][which]['value'], 'read_in_order': order, 'value': c2}))
         stage = 'observers'
         _observer_oracle(torch, o, p, {w: (lambda w=w: p.get_cost(w)) for w in names}, xs, coeffs)
+        stage = 'input-example'
+        _example_oracle(torch, o, rng, lambda ex: SuperNet(M(), input_example=ex, cost=dict(specs), full_cost=full_cost), shp, p,
+                        lambda w: {k: (lambda k=k: w.get_cost(k)) for k in names}, xs, prep=lambda w: w.update_softmax_options(temperature=temp))
     except Exception as ex:
         o['fails'].append(('exception:SuperNet:' + stage.split(':')[0], '%s: %s' % (type(ex).__name__, str(ex)[:300])))
         o['trace'] = traceback.format_exc()[-1500:]
@@ -405,6 +444,9 @@ def mps_case(torch, seed, mname, per_channel):
         _observer_oracle(torch, o, p, {w: (lambda w=w: p.get_cost(w)) for w in names}, xs, al(p))
         stage = 'onehot'
         _onehot_oracle(torch, o, p, {w: (lambda w=w: p.get_cost(w)) for w in names}, xs, al(p), True)
+        stage = 'input-example'
+        _example_oracle(torch, o, rng, lambda ex: MPS(M(), input_example=ex, cost=dict(specs), w_search_type=st, qinfo=qi()), (3, 8, 8), p,
+                        lambda w: {k: (lambda k=k: w.get_cost(k)) for k in names}, xs)
     except Exception as ex:
         o['fails'].append(('exception:MPS:' + stage.split(':')[0], '%s: %s' % (type(ex).__name__, str(ex)[:300])))
         o['trace'] = traceback.format_exc()[-1500:]
@@ -459,6 +501,9 @@ def odimo_case(torch, seed, mname, as_dict):
         _observer_oracle(torch, o, p, {'diana_latency': get}, xs, al(p))
         stage = 'onehot'
         _onehot_oracle(torch, o, p, {'diana_latency': get}, xs, al(p), False)     # ODiMO does not support hard sampling: eval() mode only
+        stage = 'input-example'
+        _example_oracle(torch, o, rng, lambda ex: ODiMO_MPS(M(), input_example=ex, qinfo=get_default_qinfo((2, 8), (8,)), **kw), (3, 8, 8), p,
+                        lambda w: {'diana_latency': ((lambda: w.get_cost('latency')) if as_dict else (lambda: w.cost))}, xs)
     except Exception as ex:
         o['fails'].append(('exception:ODiMO_MPS-default-cost:' + stage, '%s: %s' % (type(ex).__name__, str(ex)[:300])))
         o['trace'] = traceback.format_exc()[-1500:]
